@@ -30,7 +30,6 @@ import (
 	"regexp"
 	"strconv"
 	"strings"
-	"unicode"
 )
 
 type HasArgument interface {
@@ -144,13 +143,16 @@ func (a *IdArg) Parse() error {
 				" not allowed to start with xml: " + str)
 		}
 	}
-	var r rune = rune(str[0])
-	if !(r == '_' || unicode.IsLetter(r)) {
+	// ALPHA and DIGIT are ASCII only
+	isAlpha := func(c byte) bool {
+		return (c >= 'a' && c <= 'z') || (c >= 'A' && c <= 'Z')
+	}
+	if !(str[0] == '_' || isAlpha(str[0])) {
 		return ErrInval
 	}
 	for i := 1; i < len(str); i++ {
-		var r rune = rune(str[i])
-		if !isAlphaNumeric(r) && r != '-' && r != '.' {
+		c := str[i]
+		if !isAlpha(c) && !(c >= '0' && c <= '9') && c != '_' && c != '-' && c != '.' {
 			return ErrInval
 		}
 	}
